@@ -21,8 +21,12 @@ package packfile
 //@   modifies stream(r.r)
 //@   ensures [C18] err == nil && objType != 0 ==> forall(k, 0, len(b), b[k] == streamByte(r.r, pos(r.r) - len(b) + k))
 //@   ensures [C17] allocated <= old(allocated) + 8*consumed(r.r) + 2097152 + 4096
+//@   loop 1 let bodyStart = pos(r.r)
+//@   loop 1 returns [C18] streamClean(r.r) ==> streamLen(r.r) < bodyStart + u
+//@   loop 1 invariant pos(r.r) == bodyStart + read
 //@   loop 1 invariant read <= u && read <= len(b) && (u == 0 || len(b) >= 1) && cap(b) == len(b) && fresh(b) && u <= 1099511627776
 //@   loop 1 invariant forall(k, 0, read, b[k] == streamByte(r.r, pos(r.r) - read + k)) && pos(r.r) >= old(pos(r.r)) + read
 //@   loop 1 invariant [C17] allocated <= old(allocated) + 2*len(b) + 4096 && len(b) <= max(1048576, 2*read)
 //@   loop 1 decreases u - read
-//@   replay func() (int, []byte, error) { pr := &PackfileReader{r: io.NopCloser($r)}; return pr.ReadObject() }()
+//@   replay-reader r.r
+//@   replay func() (int, []byte, error) { pr := &PackfileReader{r: io.NopCloser($reader)}; return pr.ReadObject() }()
